@@ -233,7 +233,7 @@ ADDENDA = {
     "C08": "By model extraction: (R08.f) OverloadedSignature.check_call and _unite_rets are interpreted from their AST with overloads as model objects following the documented single-overload contract, for every set of 2-3 (thorough 4) overloads x every argument (atom, union, Any): plain arguments are typed by the first accepting overload and diagnosed iff none accepts; unions are accepted iff every member is, with each member's own result in the type; Any never selects one overload's type when several match. Also decides: (R08.e) union decomposition for positional and keyword arguments alike. Round 4: (R08.g) can_assign of the container model given Any on the right for 148 parameter types: an acceptance of Any by a non-Any type has called record_any_used(); in the exclude-Any mode nothing accepts Any. (R08.h) the is_overload gate of check_call_with_bound_args admits exactly the positions (int, str) whose remainder the function can write back.",
     "C09": "Also decides: (R09.e) the scope synthesised for a suppressing with-block keeps LEAVES_LOOP; by model extraction (R09.f): the control-flow visitors and the scope machinery are interpreted from their AST in the collecting phase on ~1000 generated function bodies (if / while / for with else, break, continue, return, try / except / else / finally, suppressing and non-suppressing with blocks, dead statements after jumps, opaque calls, one level of nesting); for every reachable use of a local the recorded definitions lie between the strict and the liberal reaching-definitions sets of an independent analysis, and the unbound state is recorded iff some path leaves the name unbound; (R09.g) _visit_function_body with both phases, visit_Nonlocal / visit_Global and the value resolution are interpreted on 750 functions with a nested function that reads or assigns names of the enclosing function or the module and is called at known points: the values obtained in the checking phase lie between strict and liberal reaching definitions, and on R09.f's programs the checking phase obtains exactly the recorded definitions. Round 4: pinned programs with loops whose body's last statement leaves while a nested branch continues, and loops whose tail always returns.",
     "C10": "Also decides: (R10.4) caches shared between files are keyed by everything the cached value depends on; (R10.5) unify_bounds_maps / intersect_bounds_maps interpreted on sequences of up to three maps: inputs unchanged, no list shared with an input, repetition stable; (R10.6) memo caches on long-lived objects are keyed by every non-context parameter the memoised method reads. Round 4: (R10.7) no dataclasses.replace() call copies an object whose class has an init field with a mutable default_factory (the copy would share the container).",
-    "C11": "Also decides, by model extraction: (R11.7) show_error, has_file_level_ignore, _lines, is_enabled and get_unused_ignores are interpreted from their AST on every file of <= 3 lines from 13 line kinds (incl. a blank line and a form feed, which is white space for the parser) x every sequence of <= 2 raw diagnostics x every set of enabled codes (~83,000 runs): reported = enabled and not suppressed by a documented ignore form; used / unused ignore comments are exactly those that did / did not suppress something; the used set does not depend on the enabled codes; (R11.8) is_error_code_enabled interpreted on views of one Options object for pairs of modules in both orders: every answer equals the layered configuration, whatever was asked before. Round 4: the R11.8 stacks carry -e / -d command-line settings, also with the value equal to the code's built-in default.",
+    "C11": "Also decides, by model extraction: (R11.7) show_error, has_file_level_ignore, _lines, is_enabled and get_unused_ignores are interpreted from their AST on every file of <= 3 lines from 15 line kinds (incl. a blank line, a form feed - white space for the parser - and the ignore text inside a string literal, which is not a comment) x every sequence of <= 2 raw diagnostics x every set of enabled codes (~83,000 runs): reported = enabled and not suppressed by a documented ignore form; used / unused ignore comments are exactly those that did / did not suppress something; the used set does not depend on the enabled codes; (R11.8) is_error_code_enabled interpreted on views of one Options object for pairs of modules in both orders: every answer equals the layered configuration, whatever was asked before. Round 4: the R11.8 stacks carry -e / -d command-line settings, also with the value equal to the code's built-in default.",
     "C12": "Also decides: (R12.5) format()/payload operations on user objects run under an exception guard; (R12.6) payload comparisons go through safe_equals or an except clause; (R12.7) a container of the checker indexed by a literal payload is inside a sufficient try, behind a len() range check or behind a membership test; (R12.8) metaclass methods (mro, __subclasses__) are not called through a class object of the checked program; (R12.9) no can_assign application of the container model (unhashable objects, large unions) raises; (R12.10) no list / dict / set is stored in a hashed field of a Value / Bound / Extension class with generated __init__ and __hash__; (R12.11) what `with self.scopes.subscope() / loop_scope() as x` binds is None outside function scopes: every use of x that needs an object is under an `is not None` guard; (R12.12) int() behind a digit test is behind isdecimal(); (R12.13) the safe_* wrappers catch Exception and run nothing of the object outside the guard; (R12.14) the truth value of a guarded user-code result is taken inside a guard or after bool() inside it; (R12.15) the __str__ of the Value classes converts literals to text under a guard; (R12.16) operator functions picked from a table run on literal payloads under a guard, len() of a possible range under an OverflowError handler; (R12.17) Signature.make + validate interpreted on 972 legal def headers (incl. Unpack[tuple] *args and Unpack[TypedDict] **kwargs): validate never raises.",
     "C13": "Also decides: (R13.3) coroutine wrapping of async functions is conditioned on async-ness only in both signature builders; (R13.4) the runtime route never reads typing's shared ForwardRef evaluation cache; by model extraction (R13.5): the AST route, the string route and the runtime route of annotation evaluation are interpreted from their AST on ~800 annotation expressions of the typing vocabulary (the runtime form is built by CPython from the same expression) and must yield equal values and agree on rejection; (R13.6) compute_parameters on the def node and ArgSpecCache.from_signature on CPython's inspect.Signature of the same def interpreted on ~800 def headers: names, kinds, defaults, annotations and return annotation agree. Round 4: R13.6 also covers methods of classes nested up to three levels (the implicit type of self on both routes); R13.5's vocabulary has the starred form of unpacked tuples.",
     "C14": "Also decides: hand-written hashes canonicalise unordered fields; identity returns of substitute_typevars are guarded against type variables; by model extraction (R14.4): unite_values / flatten_values / annotate_value interpreted from their AST on 14 model values with the real classes' equality and hash, every pair and triple: idempotent, commutative, associative, never nests, Never identity, members = operands' members, equal alternatives merged; (R14.5) MultiValuedValue.__eq__ interpreted on unions of up to 12 members and their reorderings: equality is order-insensitive and member-sensitive. Round 4: (R14.6) 56 unions of 2-15 members incl. unhashable literals accept each operand, two operands and themselves (the large-union lookup table interpreted).",
